@@ -314,6 +314,12 @@ class UnaryExpression(MathExpression):
         else:
             return self.right
 
+    def clone(self) -> "UnaryExpression":  # type:ignore[override]
+        result = cast(UnaryExpression, super().clone())
+        # The copy must look for its operand on the same side as the original
+        result.child_on_left = self.child_on_left
+        return result
+
     def evaluate(self, context: Optional[Dict[str, NumberType]] = None) -> float:
         child = self.get_child()
         if child is None:
